@@ -42,3 +42,4 @@ def run_model_legs(ctx):
     else:
         ctx.fail("trace-rejected:Trace_XlsxSheet", {"kind": "trace", "trace": trace, "info": v["info"],
                                                     "tlc_output": v["out"]})
+    ctx.bigsst_leg("xlsx")
